@@ -201,6 +201,8 @@ def r08_2(prog, rep):
             rep.ok(rid, key, "src/instant.c", "%s = %d in %s" % (m, want, sorted(vals)))
         else:
             rep.fail(rid, key, "src/instant.c", "%s defined as %s (expected %d everywhere)" % (m, vals, want))
+    if month_length_tables(prog, rep, rid) < 3:
+        rep.broken_("rule=R08.2 expected >=3 month-length tables, found fewer")
     # leap predicates: every `% 4` on a year is tested for zero
     nleap = 0
     leapseen = set()
@@ -411,6 +413,32 @@ R08_5_EXCEPTIONS = {
     ("ywd_to_md", "res.m"): "returns a (month, day) pair without a year: a week-date spilling over New Year is folded onto Dec/Jan, "
                             "the neighbouring years are represented by the caller's three candidate sets",
 }
+
+
+def month_length_tables(prog, rep, rid, files=None):
+    """Every constant table that looks like month lengths (12 entries of 28..31, optionally a leading 0) IS the Gregorian month lengths
+    (February 28 or, in a table of upper bounds, 29).  Tables are discovered by shape, so a new copy is checked like the old ones."""
+    n = 0
+    for name, tl in sorted(prog.tables.items()):
+        for t in tl:
+            if files and t["file"] not in files:
+                continue
+            v = table_py(t)
+            if not (isinstance(v, list) and len(v) in (12, 13) and all(isinstance(x, int) for x in v)):
+                continue
+            body = v[1:] if len(v) == 13 and v[0] == 0 else v
+            if len(body) != 12 or not all(28 <= x <= 31 for x in body):
+                continue
+            n += 1
+            key = "month-lengths/%s:%s" % (t["file"], name if t.get("scope") == "file" else "%s/%s" % (str(t.get("scope")).split(":")[-1], name))
+            if body[:1] + body[2:] == ML[1:2] + ML[3:] and body[1] in (28, 29):
+                rep.ok(rid, key, "src/%s:%s" % (t["file"], t.get("line")), "month lengths %s" % body)
+            else:
+                wrong = [(i + 1, body[i], ML[i + 1]) for i in range(12) if body[i] != ML[i + 1] and not (i == 1 and body[i] == 29)]
+                rep.fail(rid, key, "src/%s:%s" % (t["file"], t.get("line")),
+                         "table %s holds %s: month %d has %d days, not %d - dates on the missing day(s) are rejected or mis-stepped" % (
+                             name, body, wrong[0][0], wrong[0][1], wrong[0][2]))
+    return n
 
 
 def r08_5(prog, rep):
